@@ -25,7 +25,7 @@ Lemma simnbr_row_ok (s : @nbr R A G) l q raw seed row cache orc p e st k l' :
   simnbr_row N aeqb RG s l q raw seed row cache orc = Some ((p, (e, st), k), l') -> nstat_row_ok st.
 Proof.
   unfold simnbr_row. destruct (sim_neighborhood N s row cache orc) as [[|i idx]|]; [| |discriminate].
-  - destruct (draw_z RG (create RG seed) _) as [v g']. intros E. injection E as _ _ <- _ _. constructor.
+  - destruct (negb (nnprob_len_ok s)); [discriminate|]. destruct (draw_z RG (create RG seed) _) as [v g']. intros E. injection E as _ _ <- _ _. constructor.
   - destruct (lp_fit N aeqb l (create RG seed) _ _ _) as [l1 ok]. destruct (negb ok); [discriminate|].
     destruct (lp_expectations1 N aeqb RG l1 (create RG seed) row) as [[e1 l2] g2].
     destruct (lp_is_ts l2).
